@@ -100,3 +100,14 @@ chk("C06", "exploration", "property-based testing (Hypothesis): generated game h
     "is active and a new one starts. Search, not proof.",
     "Ball hardware faked as in MpfFakeGameTestCase; waits <= 80 ms; tilt requests only while a ball is in progress.",
     "DESIGN.md §4 C06")
+chk("C11", "exploration", "property-based testing (Hypothesis): generated multi-player game histories with a metamorphic save/restore and isolation oracle",
+    "Generated 1-4 player games (scoring, logic-block progress, shot hits, achievement events, a hand-started second game "
+    "mode, timers with timed pauses, drains, extra balls, early game end and new games) run on game modes with persisted "
+    "counters/accruals/sequences, a profile shot, an achievement and variable_player entries. Checked: every player's "
+    "variables are unchanged from the end of their turn to the start of their next one and after every operation during "
+    "other players' turns; persisted state at a player's next ball equals the state before the drain that ended their "
+    "previous ball (with the documented achievement mapping); a new game starts from the first game's initial state; "
+    "player_<var> events chain (prev_value, change, player_num) and no tracked variable changes without an event. "
+    "Search, not proof.",
+    "Faked ball hardware; timers only checked for isolation; restore sampled 100 ms after ball_started.",
+    "DESIGN.md §4 C11")
